@@ -5,6 +5,8 @@ NOTES = ("Machine-checked proof in Coq 8.16 over executable Gallina models of th
          "(translator -> coq/gen). Oracles (math/big, encoding/*, x/net/html, node, strace) only search for failing inputs. "
          "fix: commits and open findings are listed in known_findings.json.")
 ENGINES = [
+    {"name": "Tables", "path": "coq/theories/Tables + coq/gen/Tables_gen.v + translator/", "serves_properties": ["C17", "C04", "C03"],
+     "kind_free_text": "tables regenerated from /repo by the go/ast translator, checked in Coq against pinned references; harness/cmd/tablecheck"},
     {"name": "DataUri", "path": "coq/theories/DataUri", "serves_properties": ["C18", "C11"],
      "kind_free_text": "Gallina models of minify.DataURI's re-encoding half, base64/percent encoders, minify.Mediatype (F1) + RFC decoders as spec; harness/cmd/dataurichk"},
     {"name": "Dispatch", "path": "coq/theories/Dispatch", "serves_properties": ["C15"],
@@ -15,6 +17,18 @@ ENGINES = [
      "kind_free_text": "F2 Gallina model of minify.Number/Decimal (precision 0) + lexeme grammar and value spec; extracted to OCaml; harness/cmd/numcheck"},
 ]
 CHECKS = {
+    "C17": {
+        "engine": "Tables", "design_ref": "DESIGN.md section 4 / C17",
+        "technique": "Coq proof over tables regenerated from source (finite sweep lifted with forallb_forall) + exhaustive public-API oracle",
+        "text": ("The literal tables of html/xml/css/svg table.go are transcribed into Coq by the translator on every run and the theorems of Props/C17.v are "
+                 "re-checked against them: every entity replacement decodes to the same text as its reference and is not longer, every colour pair is the "
+                 "same sRGB colour and a real CSS keyword (lightslateblue excluded by name and refuted: K21), boolean/URL attributes, raw-text and "
+                 "whitespace-dropping elements, zero units, svg colour attributes and JS types are subsets of the standards' lists. The domain is finite, so "
+                 "the sweep is a proof for the current table. A changed entry breaks the obligation; tablecheck then exercises every entry directly and "
+                 "through the public minifiers against Go's html package, x/net/html and x/image/colornames to produce the replay."),
+        "note": ("Trusted: Coq kernel (vm_compute), the translator's transcription (go/ast, no evaluation; Hash identifier -> name by lower-casing), the pinned "
+                 "reference tables and hand-written standard lists under coq/theories/Ref."),
+    },
     "C18": {
         "engine": "DataUri", "design_ref": "DESIGN.md section 4 / C18",
         "technique": "Coq proof (round trips for all byte strings, result shape) on extracted models + correspondence after the real parse.DataURI",
